@@ -27,6 +27,8 @@ type c10Op struct {
 	NilV bool   `json:"nilv,omitempty"` // set: the value is an untyped nil (recorded as -1)
 	Re   int    `json:"re,omitempty"`   // set: when this task executes, its callback re-arms the key with delay Re*I ...
 	RN   int    `json:"rn,omitempty"`   // ... at most RN times (the periodic-task idiom: SetTimer from inside the execute callback)
+	DLat int    `json:"dlat,omitempty"` // drain: the drain function sleeps DLat half-intervals after recording the hand-over
+	SD   bool   `json:"sd,omitempty"`   // drain: Stop is called right after Drain returned, while the (slow) hand-over is still running
 	Pan  []int  `json:"pan,omitempty"`  // drain: the drain function panics for these keys (after recording the hand-over)
 }
 
@@ -382,6 +384,9 @@ func c10Interp(t *testing.T, c c10Case) (v kit.Verdict) {
 					dm.Lock()
 					got = append(got, c10Fire{key: ks.index(k), val: c10Val(val), drained: true})
 					dm.Unlock()
+					if o.DLat > 0 {
+						time.Sleep(time.Duration(o.DLat) * c10Interval / 2)
+					}
 					for _, pk := range o.Pan {
 						if pk == ks.index(k) {
 							dm.Lock()
@@ -391,13 +396,24 @@ func c10Interp(t *testing.T, c c10Case) (v kit.Verdict) {
 						}
 					}
 				})
+				wasStopped := stopped
+				if o.SD && !stopped {
+					// shutdown sequence Drain(); Stop() without waiting for the hand-over to finish:
+					// every task pending at the Drain must still be handed over exactly once
+					w.Stop()
+					classes["stop-during-drain"] = true
+				}
+				if o.DLat > 0 {
+					classes["slow-drain-fn"] = true
+					time.Sleep(time.Duration(len(model)+2) * time.Duration(o.DLat) * c10Interval)
+				}
 				kit.Wait()
 				dm.Lock()
 				if drainPanicked {
 					classes["drain-fn-panics"] = true
 				}
 				dm.Unlock()
-				if stopped {
+				if wasStopped {
 					if err != ErrClosed {
 						fail = fmt.Sprintf("%s: after Stop got %v, want ErrClosed", what, err)
 						return
@@ -422,6 +438,9 @@ func c10Interp(t *testing.T, c c10Case) (v kit.Verdict) {
 					}
 					model = map[int]c10Pending{}
 					drained = true
+					if o.SD {
+						stopped = true
+					}
 				}
 				if !expectNoFire(what) {
 					return
@@ -598,6 +617,13 @@ func c10Gen(rt *rapid.T) c10Case {
 			o.M = rapid.SampledFrom([]int{0, -1, 1}).Draw(rt, "m") // 1 => nil key
 		case "drain":
 			drained = true
+			if rapid.IntRange(0, 2).Draw(rt, "slowdrain") == 0 {
+				o.DLat = rapid.IntRange(1, 4).Draw(rt, "dlat")
+			}
+			if !stopped && rapid.IntRange(0, 2).Draw(rt, "stopduring") == 0 {
+				o.SD = true
+				stopped = true
+			}
 			if wide && rapid.Bool().Draw(rt, "drainpanicsmost") {
 				for k := 0; k < nkeys; k++ {
 					if rapid.IntRange(0, 9).Draw(rt, "pk") < 8 {
